@@ -131,7 +131,10 @@ namespace rpc
         slice(off_t off, size_t len) : offset(off), length(len) {}
 
         string anchor(const buffer& base_buffer) const {
-            assert(offset + length <= base_buffer.size());
+            // offset and length may come from the wire: never form a string outside the base buffer
+            if (offset < 0 || length > base_buffer.size() ||
+                (size_t) offset > base_buffer.size() - length)
+                return string();
             return {(char*) base_buffer.addr() + offset, length};
         }
 
